@@ -60,8 +60,11 @@ def eval_moved_in(fam, outer, inner):
         return 'moved', [Viol('C05|moved|%s in %s|%s|operands-built-from-shared-points' % (inner[0], outer[0], want), core.enc((outer, inner)), want,
                               lib.describe(first), 'membership with operands built from Point objects that also served other (moved) lines, segments and half-lines')]
     t = (0, 0, 0)
+    kept = None
     for i, v in enumerate(MOVED_V):
         m = lib.call(lo.move, lib.V(v))
+        if i == 0 and not isinstance(m, lib.Raised):
+            kept = (m, v)
         if isinstance(m, lib.Raised):
             return 'moved', [Viol('C05|moved|%s|move-raises:%s' % (outer[0], m.cls), core.enc((outer, inner)), 'moved', repr(m), '')]
         t = X.add(t, v)
@@ -72,6 +75,15 @@ def eval_moved_in(fam, outer, inner):
             if got is not want:
                 return 'moved', [Viol('C05|moved|%s in %s|%s|%s-after-%d-in-place-moves' % (inner[0], outer[0], who, want, i + 1), core.enc((outer, inner)), want,
                                       lib.describe(got), 'membership in the %s container after moving it in place %d times' % (who, i + 1))]
+    # the polygon / polyhedron returned by the FIRST move is a new object: it stays where it was returned, whatever happened to
+    # the receiver afterwards (Line.move / Plane.move return the receiver itself or share its state - nothing is claimed there)
+    if kept is not None and outer[0] in X.BODY:
+        with lib.shared_points():
+            li = lib.to_lib(X.xform(inner, ID3, 1, kept[1]))
+        got = lib.call(lambda: li in kept[0])
+        if got is not want:
+            return 'moved', [Viol('C05|moved|%s in %s|%s|object-returned-by-an-earlier-move-follows-the-receiver' % (inner[0], outer[0], want), core.enc((outer, inner)), want,
+                                  lib.describe(got), 'membership in the object returned by the first move, after the receiver was moved twice more')]
     return 'moved|%s in %s|%s' % (inner[0], outer[0], want), []
 
 
